@@ -204,3 +204,11 @@ Section Solvers.
     destruct store; [|reflexivity]. apply map_ext. intro x. destruct is_cg; reflexivity.
   Qed.
 End Solvers.
+
+(* blocked wrappers: in every branch the solution vector is cut by the DOMAIN spaces of A, the right-hand side of the weak
+   systems is taken with respect to the dual_to_range spaces *)
+Lemma blocked_space_lists :
+  it_blocked_result_strong IT = "domain_spaces"%string /\ it_blocked_result_weak IT = "domain_spaces"%string /\
+  lu_blocked_result LU = "domain_spaces"%string /\ it_blocked_weak_rhs IT = "dual_to_range_spaces"%string /\
+  lu_blocked_rhs LU = "dual_to_range_spaces"%string.
+Proof. repeat split; reflexivity. Qed.
